@@ -60,32 +60,41 @@ def vpos (len : Nat) (inc : Int) (i : Nat) : Nat :=
 
 /-! ### sp_gemv / sp_gemm -/
 
+/-- number of elements of x / y for a given op (SRC/dsp_blas2.c:409-415, with the normalised flag) -/
+def lenX (tr : Tr) (A : CSC K) : Nat := if tr == Tr.N then A.n else A.m
+def lenY (tr : Tr) (A : CSC K) : Nat := if tr == Tr.N then A.m else A.n
+
+/-- "First form y := beta*y" (l.423-443); y is not read when beta = 0 -/
+def gemvScale [BEq K] (beta : K) (leny : Nat) (incy : Int) (y : Array K) : Array K :=
+  if beta == 1 then y else
+    (List.range leny).foldl (fun (y : Array K) i =>
+      y.setIfInBounds (vpos leny incy i) ((fun (_ : Nat) (v : K) => if beta == 0 then 0 else beta * v) i y[vpos leny incy i]!)) y
+
+/-- "Form y := alpha*A*x + y" (l.447-462): one pass over the columns, columns with x_j = 0 skipped -/
+def gemvN [BEq K] (alpha : K) (A : CSC K) (x : Array K) (lenx : Nat) (incx : Int) (leny : Nat) (incy : Int)
+    (y : Array K) : Array K :=
+  (List.range A.n).foldl (fun (y : Array K) j =>
+    if x[vpos lenx incx j]! == 0 then y else
+    (A.col j).foldl (fun (y : Array K) (e : Nat × K) =>
+      y.setIfInBounds (vpos leny incy e.1) (y[vpos leny incy e.1]! + alpha * x[vpos lenx incx j]! * e.2)) y) y
+
+/-- "Form y := alpha*A'*x + y" (l.463-479) resp. the conjugated variant (zsp_blas2.c:574-595) -/
+def gemvT (tr : Tr) (alpha : K) (A : CSC K) (x : Array K) (lenx : Nat) (incx : Int) (leny : Nat) (incy : Int)
+    (y : Array K) : Array K :=
+  (List.range A.n).foldl (fun (y : Array K) j =>
+    y.setIfInBounds (vpos leny incy j)
+      ((fun (j : Nat) (v : K) => v + alpha * (A.col j).foldl (fun (t : K) (e : Nat × K) => t + cj tr e.2 * x[vpos lenx incx e.1]!) 0)
+        j y[vpos leny incy j]!)) y
+
 /-- `y := alpha*op(A)*x + beta*y` — SRC/dsp_blas2.c:402-482 in statement order. -/
 def spGemv [BEq K] (tr : Tr) (alpha : K) (A : CSC K) (x : Array K) (incx : Int) (beta : K)
     (y : Array K) (incy : Int) : Array K :=
   -- quick return
   if A.m == 0 || A.n == 0 || (alpha == 0 && beta == 1) then y else
-  let lenx := if tr == Tr.N then A.n else A.m
-  let leny := if tr == Tr.N then A.m else A.n
-  -- first form y := beta*y (y is not read when beta = 0)
-  let y1 := if beta == 1 then y else
-    (List.range leny).foldl (fun (y : Array K) i =>
-      let p := vpos leny incy i
-      y.setIfInBounds p (if beta == 0 then 0 else beta * y[p]!)) y
+  let y1 := gemvScale beta (lenY tr A) incy y
   if alpha == 0 then y1 else
-  if tr == Tr.N then
-    (List.range A.n).foldl (fun (y : Array K) j =>
-      let xj := x[vpos lenx incx j]!
-      if xj == 0 then y else
-      let temp := alpha * xj
-      (A.col j).foldl (fun (y : Array K) (e : Nat × K) =>
-        let p := vpos leny incy e.1
-        y.setIfInBounds p (y[p]! + temp * e.2)) y) y1
-  else
-    (List.range A.n).foldl (fun (y : Array K) j =>
-      let temp := (A.col j).foldl (fun (t : K) (e : Nat × K) => t + cj tr e.2 * x[vpos lenx incx e.1]!) 0
-      let p := vpos leny incy j
-      y.setIfInBounds p (y[p]! + alpha * temp)) y1
+  if tr == Tr.N then gemvN alpha A x (lenX tr A) incx (lenY tr A) incy y1
+  else gemvT tr alpha A x (lenX tr A) incx (lenY tr A) incy y1
 
 /-- `len` consecutive elements starting at `off` -/
 def slice (a : Array K) (off len : Nat) : Array K := (Array.range len).map fun i => a[off + i]!
@@ -97,15 +106,20 @@ def unslice (a : Array K) (off : Nat) (v : Array K) : Array K :=
 referenced by the routine; `ncolC` is its argument `n`) -/
 def spGemm [BEq K] (tr : Tr) (ncolC : Nat) (alpha : K) (A : CSC K) (b : Array K) (ldb : Nat) (beta : K)
     (c : Array K) (ldc : Nat) : Array K :=
-  let lenx := if tr == Tr.N then A.n else A.m
-  let leny := if tr == Tr.N then A.m else A.n
+  let lenx := lenX tr A
+  let leny := lenY tr A
   (List.range ncolC).foldl (fun (c : Array K) j =>
     unslice c (ldc * j) (spGemv tr alpha A (slice b (ldb * j) lenx) 1 beta (slice c (ldc * j) leny) 1)) c
 
+/-- entry (i,j) of `op(A)` read off the storage: stored entries at the same position are added,
+conjugation (op = C) is applied to each stored value -/
+def opEntry (tr : Tr) (A : CSC K) (i j : Nat) : K :=
+  if tr == Tr.N then (A.col j).foldl (fun acc e => if e.1 = i then acc + e.2 else acc) 0
+  else (A.col i).foldl (fun acc e => if e.1 = j then acc + cj tr e.2 else acc) 0
+
 /-- dense `y = alpha*op(A)*x + beta*y` by definition (entry `i` of the result), reference for gemv -/
 def gemvRef (tr : Tr) (alpha : K) (A : CSC K) (x : Nat → K) (beta : K) (y : Nat → K) (i : Nat) : K :=
-  let lenx := if tr == Tr.N then A.n else A.m
-  alpha * sumTo lenx (fun j => (if tr == Tr.N then A.get i j else cj tr (A.get j i)) * x j) + beta * y i
+  alpha * sumTo (lenX tr A) (fun j => opEntry tr A i j * x j) + beta * y i
 
 /-! ### sp_trsv on the supernodal storage -/
 variable [Div K]
